@@ -358,6 +358,32 @@ impl<'tcx> Ctx<'tcx> {
                         // pointer to bytes (e.g. &[u8; N], &'static [u8;N])
                         if let Some(bytes) = self.try_bytes(ty, v) {
                             o.set("bytes", J::bytes(&bytes));
+                        } else if let mir::interpret::Scalar::Ptr(ptr, _) = s {
+                            // reference to a small scalar-like constant (e.g. &U31): its value
+                            if let ty::Ref(_, inner, _) = ty.kind() {
+                                if let Ok(layout) = tcx.layout_of(env.as_query_input(*inner)) {
+                                    let n = layout.size.bytes() as usize;
+                                    if n > 0 && n <= 8 && !inner.is_ref() {
+                                        let (prov, off) = ptr.prov_and_relative_offset();
+                                        if let mir::interpret::GlobalAlloc::Memory(a) =
+                                            tcx.global_alloc(prov.alloc_id())
+                                        {
+                                            let a = a.inner();
+                                            let start = off.bytes() as usize;
+                                            let all = a
+                                                .inspect_with_uninit_and_ptr_outside_interpreter(0..a.len());
+                                            if start + n <= all.len()
+                                                && a.provenance().ptrs().is_empty()
+                                            {
+                                                let mut b8 = [0u8; 8];
+                                                b8[..n].copy_from_slice(&all[start..start + n]);
+                                                o.set("int", J::i(u64::from_le_bytes(b8) as i128));
+                                                o.set("deref", J::b(true));
+                                            }
+                                        }
+                                    }
+                                }
+                            }
                         }
                     }
                 }
